@@ -5,6 +5,9 @@ use crate::{
 #[cfg(any(debug_assertions, leptos_debuginfo))]
 use std::cell::Cell;
 use std::{cell::RefCell, panic::Location, rc::Rc};
+#[cfg(leptos_verif)]
+use crate::renderer::dom::{Element, Node, Placeholder as Comment, Text};
+#[cfg(not(leptos_verif))]
 use web_sys::{Comment, Element, Node, Text};
 
 /// Hydration works by walking over the DOM, adding interactivity as needed.
@@ -121,6 +124,7 @@ pub(crate) fn set_currently_hydrating(
     }
 }
 
+#[cfg(not(leptos_verif))]
 pub(crate) fn failed_to_cast_element(tag_name: &str, node: Node) -> Element {
     #[cfg(not(any(debug_assertions, leptos_debuginfo)))]
     {
@@ -153,6 +157,7 @@ pub(crate) fn failed_to_cast_element(tag_name: &str, node: Node) -> Element {
     }
 }
 
+#[cfg(not(leptos_verif))]
 pub(crate) fn failed_to_cast_marker_node(node: Node) -> Comment {
     #[cfg(not(any(debug_assertions, leptos_debuginfo)))]
     {
@@ -185,6 +190,7 @@ pub(crate) fn failed_to_cast_marker_node(node: Node) -> Comment {
     }
 }
 
+#[cfg(not(leptos_verif))]
 pub(crate) fn failed_to_cast_text_node(node: Node) -> Text {
     #[cfg(not(any(debug_assertions, leptos_debuginfo)))]
     {
@@ -215,4 +221,36 @@ pub(crate) fn failed_to_cast_text_node(node: Node) -> Text {
              directly above this for more details."
         );
     }
+}
+
+#[cfg(leptos_verif)]
+fn verif_hydration_panic(expected: &str, node: &Node) -> ! {
+    #[cfg(any(debug_assertions, leptos_debuginfo))]
+    let hydrating = CURRENTLY_HYDRATING
+        .take()
+        .map(|n| n.to_string())
+        .unwrap_or_else(|| "{unknown}".to_string());
+    #[cfg(not(any(debug_assertions, leptos_debuginfo)))]
+    let hydrating = "{unknown}";
+    panic!(
+        "Unrecoverable hydration error while hydrating an element defined at \
+         {hydrating}: the framework expected {expected}, but found this \
+         instead: {}",
+        node.serialize()
+    );
+}
+
+#[cfg(leptos_verif)]
+pub(crate) fn failed_to_cast_element(tag_name: &str, node: Node) -> Element {
+    verif_hydration_panic(&format!("an HTML <{tag_name}> element"), &node)
+}
+
+#[cfg(leptos_verif)]
+pub(crate) fn failed_to_cast_marker_node(node: Node) -> Comment {
+    verif_hydration_panic("a marker node", &node)
+}
+
+#[cfg(leptos_verif)]
+pub(crate) fn failed_to_cast_text_node(node: Node) -> Text {
+    verif_hydration_panic("a text node", &node)
 }
